@@ -2,13 +2,19 @@
    oracles of this property rest on, regenerated from /repo on every run, equal the reviewed ones:
      - group wiring (which output feeds which input, as OpenMDAO resolves it) of the canonical models of: AerostructPoint
      - unit contract (declared units of every input / output) of the classes in: -
-   An edit that re-wires a group or drops / changes a unit in these areas breaks the obligation; the oracles of the property
-   then look for the failing input. *)
+     - option defaults of the classes in: integration
+   An edit that re-wires a group, drops / changes a unit or changes a default in these areas breaks the obligation; the oracles of
+   the property then look for the failing input. *)
 From Coq Require Import String List Bool.
-From OAS Require Import Wiring WiringReviewed IOUnits IOUnitsReviewed Tie_wiring_AerostructPoint.
+From OAS Require Import Wiring WiringReviewed IOUnits IOUnitsReviewed OptionDefaults OptionDefaultsReviewed Tie_wiring_AerostructPoint Tie_options_integration.
 Import ListNotations.
 
 Theorem C12_wiring_of_AerostructPoint_models_is_the_reviewed_one :
   wiring_family_AerostructPoint gen_wiring = wiring_family_AerostructPoint reviewed_wiring /\ wiring_family_AerostructPoint reviewed_wiring <> [].
 Proof. split; [exact wiring_AerostructPoint_reviewed | exact wiring_AerostructPoint_nonempty]. Qed.
 Print Assumptions C12_wiring_of_AerostructPoint_models_is_the_reviewed_one.
+
+Theorem C12_option_defaults_of_integration_are_the_reviewed_ones :
+  options_dir_integration gen_option_defaults = options_dir_integration reviewed_option_defaults /\ options_dir_integration reviewed_option_defaults <> [].
+Proof. split; [exact options_integration_reviewed | exact options_integration_nonempty]. Qed.
+Print Assumptions C12_option_defaults_of_integration_are_the_reviewed_ones.
